@@ -1055,6 +1055,19 @@ def call(ex, callee, args):
                 raise Unsupported(f"Entry::{meth}")
         return NotImplemented
     # ---- strings
+    if base in ("std::string::String::is_empty", "std::string::String::len", "std::string::String::as_str", "std::string::String::push_str", "std::string::String::push"):
+        t = deref_all(ex, args[0])
+        if isinstance(t, Str):
+            model(f"String::{last} (z3 string theory; length in characters = bytes for ASCII)")
+            if last == "is_empty":
+                return BoolV(z3.simplify(t.t == z3.StringVal("")))
+            if last == "len":
+                return IntV(z3.Length(t.t), "usize")
+            if last == "as_str":
+                return t
+            if last == "push_str":
+                ex.write_ref(args[0], Str(z3.Concat(t.t, as_str(ex, args[1]).t)))
+                return Agg("tuple")
     if base in ("std::string::String::new",):
         return Str("")
     if base.endswith("::to_string") or base.endswith("::to_owned"):
